@@ -96,6 +96,11 @@ func c18GenBucket(level []string) func(t *rapid.T) c18BucketScenario {
 				default:
 					op.EndSec = rapid.SampledFrom(c18EndsPast).Draw(t, "endPast")
 				}
+				// store level: now and then the submission is a late copy of an earlier version (its update time lies
+				// before the stored one's): the store ignores it, and so must the limit accounting
+				if sc.Level == "store" && rapid.IntRange(0, 5).Draw(t, "late") == 0 {
+					op.Kind = "late-copy"
+				}
 				sc.Ops = append(sc.Ops, op)
 			case k <= 7:
 				sc.Ops = append(sc.Ops, c18Op{Kind: "advance", DtSec: rapid.SampledFrom(c18Advance).Draw(t, "dt")})
@@ -495,7 +500,7 @@ func c18ExecBucket(sc c18BucketScenario) (res pbt.Result) {
 
 		model := ref.NewC18Admitted(sc.N)
 		shadow := c18Shadow{n: sc.N, b: map[string]map[string]time.Time{}}
-		var sawRefusal, sawGCUnexpired, sawResend, sawEvictExpired, sawFull bool
+		var sawRefusal, sawGCUnexpired, sawResend, sawEvictExpired, sawFull, sawLateCopy bool
 
 		for i, op := range sc.Ops {
 			// the i-th op happens at whole seconds + (i+1) ms: an end (op instant +
@@ -521,6 +526,26 @@ func c18ExecBucket(sc c18BucketScenario) (res pbt.Result) {
 							With("unexpired", len(u)).With("level", sc.Level))
 					}
 				}
+			case "late-copy":
+				ss, ok := sys.(*c18StoreSys)
+				if !ok {
+					continue
+				}
+				name := c18Names[op.Name%len(c18Names)]
+				a := c18Alert(name, op.ID, now.Add(time.Duration(op.EndSec)*time.Second), now)
+				before, gerr := ss.st.Get(a.Fingerprint())
+				if gerr != nil {
+					continue // not held: a late copy of nothing is an ordinary submission, covered by upsert
+				}
+				a.UpdatedAt = before.UpdatedAt.Add(-time.Hour)
+				if err := ss.st.Set(a); err != nil {
+					res.Add(pbt.V("late-copy-error", "%s: a late copy of a held alert is answered with %v", where, err).With("level", sc.Level))
+				}
+				after, gerr := ss.st.Get(a.Fingerprint())
+				if gerr != nil || !after.UpdatedAt.Equal(before.UpdatedAt) || !after.EndsAt.Equal(before.EndsAt) {
+					res.Add(pbt.V("late-copy-applied", "%s: a late copy (update time one hour before the stored version's) changed the held alert: before end %s, after %v (err %v)", where, before.EndsAt, after, gerr).With("level", sc.Level))
+				}
+				sawLateCopy = true
 			case "upsert":
 				name := c18Names[op.Name%len(c18Names)]
 				fp := c18FP(name, op.ID)
@@ -628,6 +653,9 @@ func c18ExecBucket(sc c18BucketScenario) (res pbt.Result) {
 		if sawFull {
 			res.Class("bucket-full")
 		}
+		if sawLateCopy {
+			res.Class("late-copy-of-held-alert")
+		}
 	})
 	return res
 }
@@ -676,7 +704,7 @@ func (s *c18Shadow) gc(now time.Time) {
 
 var c18Epoch = time.Date(2000, 1, 1, 0, 0, 0, 0, time.UTC)
 
-const c18BucketRule = "history of upsert(name∈2, id from a universe of N+1..N+3, end ∈ future/past) / advance / GC ops, limit N∈1..4, " +
+const c18BucketRule = "history of upsert(name∈2, id from a universe of N+1..N+3, end ∈ future/past; store level: one in six is a late copy whose update time lies before the held version's and must change neither the alert nor the limit accounting) / advance / GC ops, limit N∈1..4, " +
 	"interpreted in a bubble against limit.Bucket, store.Alerts, provider mem.Alerts; non-trivial iff ≥1 refusal was announced AND a GC ran while ≥1 admitted alert was unexpired"
 
 func TestC18Bucket(t *testing.T) {
